@@ -29,8 +29,12 @@ def run(ctx):
         schema = lvs.gen_schema(rng, with_signers=True, n_rules=rng.randint(3, 7))
         text = lvs.schema_text(schema)
         w = {'schema': text}
+        tot_alts, max_len_ = lvs.alt_counts(schema)
+        if tot_alts > 60 or max_len_ > 8:
+            ctx.event('schema-skipped-too-large')
+            continue
         ref = lvs.Ref(schema, lvs.USER_FNS)
-        if sum(len(ref.alternatives(rn)) for rn in ref.defs) > 60 or ref.max_len() > 8:
+        if False:
             ctx.event('schema-skipped-too-large')
             continue
         try:
